@@ -1,5 +1,5 @@
 """C17 -- relay pull and push start, retry and stop exactly when their rules say (spec/Lifecycle.tla)."""
-from props.lifecycle_common import run_lifecycle
+from props.lifecycle_common import run_lifecycle, DIRECTED_PULL
 
 
 def run(ctx):
@@ -7,11 +7,12 @@ def run(ctx):
         run_lifecycle(ctx, bfs=[("P1", 3, 3), ("P2", 2, 3), ("P3", 2, 3), ("U1", 3, 3), ("U2", 3, 3)],
                       emit=[("P0", 2, 3), ("P4", 1, 2), ("U1", 1, 2), ("U2", 1, 2), ("U3", 1, 1), ("R4", 1, 2)],
                       sim=[("P1", 4, 4, 100, 16), ("P2", 3, 4, 60, 14), ("P3", 3, 4, 60, 14), ("H2", 3, 3, 50, 16),
-                           ("R1", 4, 4, 40, 16), ("F3", 4, 3, 30, 16)])
+                           ("R1", 4, 4, 40, 16), ("F3", 4, 3, 30, 16)], directed=DIRECTED_PULL)
     else:
         run_lifecycle(ctx, bfs=[("P1", 4, 4), ("P2", 3, 4), ("P3", 3, 4), ("U1", 4, 4), ("U2", 4, 4)],
                       emit=[("P0", 3, 4), ("P4", 2, 3), ("P3", 2, 2), ("U1", 2, 3), ("U2", 2, 3), ("U3", 2, 2), ("H2", 1, 2),
                             ("R0", 3, 4), ("R4", 2, 3), ("R3", 2, 2)],
                       sim=[("P1", 6, 6, 1500, 24), ("P2", 5, 6, 1000, 22), ("P3", 5, 6, 1000, 22),
                            ("U1", 5, 6, 600, 22), ("U2", 5, 6, 600, 22), ("H2", 5, 6, 800, 22),
-                           ("R1", 6, 6, 1500, 24), ("R2", 5, 6, 1000, 22), ("R3", 5, 6, 1000, 22), ("F3", 5, 4, 800, 22)])
+                           ("R1", 6, 6, 1500, 24), ("R2", 5, 6, 1000, 22), ("R3", 5, 6, 1000, 22), ("F3", 5, 4, 800, 22)],
+                      directed=DIRECTED_PULL)
